@@ -20,7 +20,8 @@ def graph_case(draw):
         deps = draw(st.lists(st.sampled_from(cands), max_size=3, unique=True)) if cands else []
         depth[i] = 1 + max([depth[j] for j in deps] + [0])
         nodes.append({"id": i, "async": draw(st.booleans()), "deps": deps, "msg": draw(st.integers(0, 2)) == 0, "tag": f"n{i}",
-                      "fails": False, "msg_pos": draw(st.integers(0, 3)), "dflt": draw(st.booleans())})
+                      "fails": False, "msg_pos": draw(st.integers(0, 3)), "dflt": draw(st.booleans()),
+                      "suspend": draw(st.booleans())})
     actor_deps = draw(st.lists(st.integers(0, n - 1), min_size=1, max_size=3, unique=True))
     overrides = []
     for _ in range(draw(st.integers(0, 2))):
@@ -29,16 +30,16 @@ def graph_case(draw):
         overrides.append({"node": tgt, "async": draw(st.booleans()),
                           "deps": draw(st.lists(st.sampled_from(cands), max_size=2, unique=True)) if cands else [],
                           "msg": draw(st.integers(0, 2)) == 0, "tag": f"n{tgt}v{len(overrides) + 1}",
-                          "msg_pos": draw(st.integers(0, 3)), "dflt": draw(st.booleans())})
+                          "msg_pos": draw(st.integers(0, 3)), "dflt": draw(st.booleans()), "suspend": draw(st.booleans())})
     fail_node = draw(st.one_of(st.none(), st.none(), st.integers(0, n - 1)))
     return {"nodes": nodes, "actor_deps": actor_deps, "overrides": overrides, "fail_node": fail_node,
             "actor_msg": draw(st.booleans()), "actor_msg_pos": draw(st.integers(0, 3)), "payload": draw(st.one_of(st.none(), st.fixed_dictionaries({"x": st.integers(0, 9)}))),
-            "retries": draw(st.integers(0, 1)), "converter": draw(st.sampled_from(["basic", "pydantic"])),
+            "retries": draw(st.integers(0, 1)), "concurrent": draw(st.sampled_from([1, 1, 2, 3])), "converter": draw(st.sampled_from(["basic", "pydantic"])),
             "seed": draw(st.integers(0, 999))}
 
 
 def provider_source(name: str, tag: str, is_async: bool, deps: list, msg: bool, fails: bool, msg_pos: int = 99,
-                    dflt: bool = False) -> str:
+                    dflt: bool = False, suspend: bool = False) -> str:
     params = [f"d{j}: Annotated[str, DEP[{j}]]" for j in deps]
     if msg:
         # the message dependency may be declared anywhere among the annotated ones
@@ -47,6 +48,8 @@ def provider_source(name: str, tag: str, is_async: bool, deps: list, msg: bool, 
         params.append("flag: bool = False")  # a plain parameter with a default is allowed
     parts = [f"{{d{j}}}" for j in deps] + (["{m.key.id_}"] if msg else [])
     body = f"    CALLS.append({tag!r})\n"
+    if suspend and is_async:
+        body += "    await SLEEP(0.01)\n"  # other messages are processed meanwhile
     if fails:
         body += f"    raise RuntimeError('provider {tag} failed')\n"
     body += f"    return f\"{tag}({','.join(parts)})\"\n"
@@ -57,11 +60,12 @@ def build(case: dict, rec: list, calls: list):
     from repid import Depends, MessageDependency
 
     DEP: dict = {}
-    ns: dict = {"Annotated": Annotated, "MessageDependency": MessageDependency, "DEP": DEP, "CALLS": calls, "REC": rec}
+    ns: dict = {"Annotated": Annotated, "MessageDependency": MessageDependency, "DEP": DEP, "CALLS": calls, "REC": rec,
+                "SLEEP": asyncio.sleep}
     cur = {}  # node id -> current provider spec
     for nd in case["nodes"]:
         src = provider_source(f"prov{nd['id']}", nd["tag"], nd["async"], nd["deps"], nd["msg"], case["fail_node"] == nd["id"],
-                              nd.get("msg_pos", 99), nd.get("dflt", False))
+                              nd.get("msg_pos", 99), nd.get("dflt", False), nd.get("suspend", False))
         exec(compile(src, "<provider>", "exec"), ns)  # noqa: S102
         DEP[nd["id"]] = Depends(ns[f"prov{nd['id']}"])
         cur[nd["id"]] = dict(nd, fails=case["fail_node"] == nd["id"])
@@ -75,7 +79,7 @@ def build(case: dict, rec: list, calls: list):
            f"{', ' + repr('m') + ': m.key.id_' if case['actor_msg'] else ''}}})\n    return 1\n")
     exec(compile(src, "<actor>", "exec"), ns)  # noqa: S102
     for i, ov in enumerate(case["overrides"]):
-        s = provider_source(f"ov{i}", ov["tag"], ov["async"], ov["deps"], ov["msg"], False, ov.get("msg_pos", 99), ov.get("dflt", False))
+        s = provider_source(f"ov{i}", ov["tag"], ov["async"], ov["deps"], ov["msg"], False, ov.get("msg_pos", 99), ov.get("dflt", False), ov.get("suspend", False))
         exec(compile(s, "<override>", "exec"), ns)  # noqa: S102
     return ns, DEP, cur
 
@@ -103,16 +107,29 @@ async def _resolve(loop, case, out: Outcome):
                  converter={"basic": BasicConverter, "pydantic": PydanticConverter}[case["converter"]])
     await Queue("qd", _connection=conn).declare()
 
-    async def one_round(tag: str, jid: str) -> None:
+    async def one_round(tag: str, jid0: str) -> None:
         rec.clear()
         calls.clear()
-        kw = {"name": "actor", "queue": "qd", "id_": jid, "retries": case["retries"], "_connection": conn}
-        if case["payload"] is not None:
-            kw["args"] = case["payload"]
-        await Job(**kw).enqueue()
-        w = Worker(routers=[router], messages_limit=1, handle_signals=[], _connection=conn)
-        await asyncio.wait_for(w.run(), timeout=20.0)
+        n = case.get("concurrent", 1)
+        jids = [jid0] if n == 1 else [f"{jid0}{chr(97 + i)}" for i in range(n)]
+        for i, jid in enumerate(jids):
+            kw = {"name": "actor", "queue": "qd", "id_": jid, "retries": case["retries"], "_connection": conn}
+            if n > 1:
+                kw["args"] = {"x": 100 + i}  # tells the executions apart
+            elif case["payload"] is not None:
+                kw["args"] = case["payload"]
+            await Job(**kw).enqueue()
+        w = Worker(routers=[router], messages_limit=n, tasks_limit=max(n, 2), handle_signals=[], _connection=conn)
+        await asyncio.wait_for(w.run(), timeout=30.0)
         await asyncio.sleep(0.05)
+        all_rec = list(rec)
+        for i, jid in enumerate(jids):
+            if n > 1:
+                rec[:] = [r for r in all_rec if r["x"] == 100 + i]
+            await judge(tag + (f" [message {jid}, {n} processed concurrently]" if n > 1 else ""), jid, n > 1, i)
+        rec[:] = all_rec
+
+    async def judge(tag: str, jid: str, multi: bool, i: int) -> None:
         places = env.probe().get(jid, [])
         try:
             exp = {f"p{j}": expected(cur, j, jid) for j in case["actor_deps"]}
@@ -136,7 +153,7 @@ async def _resolve(loop, case, out: Outcome):
         r = rec[0]
         if r["deps"] != exp:
             out.v("wrong-dependency-value", f"{tag}: actor received {r['deps']}, expected {exp}")
-        if r["x"] != (case["payload"] or {}).get("x", 0):
+        if r["x"] != (100 + i if multi else (case["payload"] or {}).get("x", 0)):
             out.v("payload-next-to-dependencies", f"{tag}: payload argument x={r['x']}, payload {case['payload']}")
         if case["actor_msg"] and r.get("m") != jid:
             out.v("message-dependency", f"{tag}: message dependency belongs to {r.get('m')}, expected {jid}")
